@@ -180,6 +180,7 @@ impl GraphDatabaseService {
                     DbMessage::DataModelUpdate(value, reply) => {
                         match db.update_data_model(&value).await {
                             Ok(model) => {
+                                db.clear_caches();
                                 let _ = reply.send(Ok(model));
                             }
                             Err(err) => {
@@ -1076,6 +1077,15 @@ impl GraphDatabase {
 
         recieve.await??;
         Ok(())
+    }
+
+    ///
+    /// the cached statements are compiled against the data model: they must be dropped when the model changes
+    ///
+    pub fn clear_caches(&mut self) {
+        self.mutation_cache.clear();
+        self.query_cache.clear();
+        self.deletion_cache.clear();
     }
 
     pub fn get_cached_mutation(&mut self, mutation: &str) -> Result<Arc<MutationParser>> {
